@@ -771,13 +771,16 @@ auto vyukov_hash_map<Key, Value, Policies...>::find(const key_type& key) -> iter
     }
   }
 
-  auto extension = bucket.head.load(std::memory_order_relaxed);
+  auto prev = &bucket.head;
+  auto extension = prev->load(std::memory_order_relaxed);
   while (extension) {
     if (traits::template compare_key<false>(extension->key, extension->value, key, h, acc)) {
       result.extension = extension;
+      result.prev = prev; // required by erase(iterator)
       return result;
     }
-    extension = extension->next.load(std::memory_order_relaxed);
+    prev = &extension->next;
+    extension = prev->load(std::memory_order_relaxed);
   }
 
   return end();
